@@ -109,13 +109,13 @@ package round
 //@   nopanic[C05]
 //@   modifies nothing
 //@   allocates
-//@   ensures typeis(result, *Output) && result != nil
+//@   ensures typeis(result, *Output) && result != nil && result.(*Output).Result == v_result && fresh(result)
 
 //@ func (*Helper).AbortRound
 //@   nopanic[C05]
 //@   modifies nothing
 //@   allocates
-//@   ensures typeis(result, *Abort) && result != nil
+//@   ensures typeis(result, *Abort) && result != nil && result.(*Abort).Err == err && fresh(result)
 
 // ---- session construction (C20, C09): a session exists only for a duplicate-free party list that contains the
 // caller and a threshold 0 <= t <= n-1; otherwise an error and no session.
